@@ -63,6 +63,40 @@ for h, need, fn, can in (("dispatch", "dub_dispatch", "dubins(d, alpha, beta) (D
                           ("rs_distance", "rs_distance", "ompl::base::ReedsSheppStateSpace::distance", [dict(name="reverse_direction", where="body:rs_distance", rx=r"RSLEN\(state1, state2\)", repl="RSLEN(state2, state1)")])):
     UNITS.append(dict(name="c14_" + h, template="C14/dubins_select.c", mode="plain", entry="h_" + h, sources=SRC, needs=[need], flags=FLAGS, unwind=9, backend="minisat", timeout=300, level="proof", functions=[fn], canaries=can))
 
+# ---- the segment walk of DubinsStateSpace::interpolate(from, path, t, state, radius) ----
+W_RULES = [
+    (r"auto \*s = allocState\(\)->as<StateType>\(\);", "int s = ALLOC_STATE();", 1), (r"double seg = t \* path\.length\(\), phi, v;", "double seg = TLEN(t), phi, v;", 1),
+    (r"s->setXY\(0\., 0\.\);", "SET_ORIGIN();", 1), (r"s->setYaw\(from->as<StateType>\(\)->getYaw\(\)\);", "SET_YAW_FROM();", 1), (r"path\.reverse_", "P_REV", 1),
+    (r"path\.length_\[", "P_LEN[", 2), (r"std::min\(", "FMIN(", 2), (r"phi = s->getYaw\(\);", "phi = GET_YAW();", 2),
+    (r"seg -= v;(\s*)switch \(path\.type_->at\(([^)]+)\)\)", r"seg -= v;\1switch (TYPE_AT(\2, v, seg))", 2),
+    (r"s->setXY\(s->getX\(\) ([+-]) sin\(phi ([+-]) v\) [+-] sin\(phi\), s->getY\(\) [+-] cos\(phi [+-] v\) [+-] cos\(phi\)\);\s*s->setYaw\(phi ([+-]) v\);", r"TURN('\1', '\2', '\3', v);", 4),
+    (r"s->setXY\(s->getX\(\) ([+-]) v \* cos\(phi\), s->getY\(\) ([+-]) v \* sin\(phi\)\);", r"STRAIGHT('\1', '\2', v);", 2),
+    (r"state->as<StateType>\(\)->setX\(s->getX\(\) \* radius \+ from->as<StateType>\(\)->getX\(\)\);", "OUT_X();", 1), (r"state->as<StateType>\(\)->setY\(s->getY\(\) \* radius \+ from->as<StateType>\(\)->getY\(\)\);", "OUT_Y();", 1),
+    (r"getSubspace\(1\)->enforceBounds\(s->as<SO2StateSpace::StateType>\(1\)\);", "ENFORCE_YAW();", 1), (r"state->as<StateType>\(\)->setYaw\(s->getYaw\(\)\);", "OUT_YAW();", 1), (r"freeState\(s\);", "FREE_STATE(s);", 1),
+    (r"(\n\s*)\}(\s*)\}(\s*)\}(\s*)else", r"\1} NOTE(v, seg);\2}\3}\4else", 1), (r"(\n\s*)\}(\s*)\}(\s*)\}(\s*)OUT_X", r"\1} NOTE(v, seg);\2}\3}\4OUT_X", 1),
+]
+WALK_SRC = [dict(name="dub_walk", file=DUB, sig=r"void DubinsStateSpace::interpolate\(const State \*from, const DubinsPath &path, double t, State \*state,\s*double radius\) const", rules=W_RULES, loops={"allow_uncontracted": True})]
+UNITS.append(dict(name="c14_dubins_segment_walk", template="C14/dubins_walk.c", mode="plain", entry="h_walk", sources=WALK_SRC, flags=FLAGS, unwind=5, backend="minisat", timeout=300, level="proof",
+                  functions=["ompl::base::DubinsStateSpace::interpolate(from, path, t, state, radius)"],
+                  canaries=[dict(name="remaining_not_reduced", where="body:dub_walk", rx=r"seg -= v;", repl="", count=1), dict(name="reversed_word_walked_forwards", where="body:dub_walk", rx=r"P_LEN\[2 - i\]", repl="P_LEN[i]"),
+                            dict(name="heading_written_before_enforceBounds", where="body:dub_walk", rx=r"ENFORCE_YAW\(\);(\s*)OUT_YAW\(\);", repl=r"OUT_YAW();\1ENFORCE_YAW();")]))
+
+# ---- the segment walk of ReedsSheppStateSpace::interpolate(from, path, t, state) ----
+RW_RULES = [
+    (r"auto \*s = allocState\(\)->as<StateType>\(\);", "int s = ALLOC_STATE();", 1), (r"double seg = t \* path\.length\(\), phi, v;", "double seg = TLEN(t), phi, v;", 1),
+    (r"s->setXY\(0\., 0\.\);", "SET_ORIGIN();", 1), (r"s->setYaw\(from->as<StateType>\(\)->getYaw\(\)\);", "SET_YAW_FROM();", 1),
+    (r"path\.length_\[", "P_LEN[", 3), (r"std::min\(", "FMIN(", 1), (r"std::max\(", "FMAX(", 1), (r"phi = s->getYaw\(\);", "phi = GET_YAW();", 1),
+    (r"switch \(path\.type_\[i\]\)", "switch (TYPE_AT(i, v, seg))", 1),
+    (r"s->setXY\(s->getX\(\) ([+-]) sin\(phi ([+-]) v\) [+-] sin\(phi\), s->getY\(\) [+-] cos\(phi [+-] v\) [+-] cos\(phi\)\);\s*s->setYaw\(phi ([+-]) v\);", r"TURN('\1', '\2', '\3', v);", 2),
+    (r"s->setXY\(s->getX\(\) ([+-]) v \* cos\(phi\), s->getY\(\) ([+-]) v \* sin\(phi\)\);", r"STRAIGHT('\1', '\2', v);", 1),
+    (r"state->as<StateType>\(\)->setX\(s->getX\(\) \* rho_ \+ from->as<StateType>\(\)->getX\(\)\);", "OUT_X();", 1), (r"state->as<StateType>\(\)->setY\(s->getY\(\) \* rho_ \+ from->as<StateType>\(\)->getY\(\)\);", "OUT_Y();", 1),
+    (r"getSubspace\(1\)->enforceBounds\(s->as<SO2StateSpace::StateType>\(1\)\);", "ENFORCE_YAW();", 1), (r"state->as<StateType>\(\)->setYaw\(s->getYaw\(\)\);", "OUT_YAW();", 1), (r"freeState\(s\);", "FREE_STATE(s);", 1),
+]
+RWALK_SRC = [dict(name="rs_walk", file=RS, sig=r"void ompl::base::ReedsSheppStateSpace::interpolate\(const State \*from, const ReedsSheppPath &path, double t,\s*State \*state\) const", rules=RW_RULES, loops={"allow_uncontracted": True})]
+UNITS.append(dict(name="c14_rs_segment_walk", template="C14/rs_walk.c", mode="plain", entry="h_rs_walk", sources=RWALK_SRC, flags=FLAGS, unwind=7, backend="minisat", timeout=300, level="proof",
+                  functions=["ompl::base::ReedsSheppStateSpace::interpolate(from, path, t, state)"],
+                  canaries=[dict(name="reversing_segment_not_consumed", where="body:rs_walk", rx=r"seg \+= v;", repl=""), dict(name="backward_step_unclamped", where="body:rs_walk", rx=r"v = FMAX\(-seg, P_LEN\[i\]\);", repl="v = P_LEN[i];")]))
+
 ASSUMPTIONS = ["Reeds-Shepp candidate lengths range over 8-bit ranks: the families only compare lengths, so every configuration of non-NaN lengths is order-isomorphic to one of these (WLOG, not machine-checked)", "the Reeds-Shepp families enumerate 8 + 8 + 8 + 16 + 4 = 44 candidate words (count taken from the construction: words x timeflip/reflect, CCC and CCSC also backwards)", "word lengths are non-NaN doubles ('no solution' is a huge finite length, as the word solvers return)", "radius * x is a trusted external operation (recorded)", "DUBINS_EPS = 1e-6 as in the source"]
 TRUSTED = ["extraction rewrite table of units/C14.py", "stubs in units/C14/*.c", "CBMC 6.11 + minisat"]
 NOT_COVERED = ["every trigonometric clause: the six word solvers, the classification tables for long paths (dubinsClassification), mod2pi, curve integration in interpolate, 'ends exactly at the target pose' for 0 < t < 1 ... t -> 1, arc length = reported distance, distance >= straight line, Reeds-Shepp <= Dubins, prefix optimality",
